@@ -269,6 +269,11 @@ class OutgoingRIB(Cache):
             # Also remove from _new_nlri since we're withdrawing it
             new_nlri.pop(route_index, None)
 
+        # a route queued for a refresh must not be re-sent once it has been withdrawn: in the first
+        # batch of a session the withdraw itself is not sent, and the peer would keep the route
+        if self._refresh_routes:
+            self._refresh_routes = [route for route in self._refresh_routes if route.index() != route_index]
+
         # Store withdraw in separate structure - no deepcopy needed!
         # Store (NLRI, AttributeCollection) tuple, action is determined by which dict it's in
         from exabgp.bgp.message.update.attribute.collection import AttributeCollection as AttrsClass
